@@ -320,6 +320,34 @@ def repeated_entries(ctx, calc, wd):
         ctx.violation(f"write_output with repeated variables raised {ex!r}", {}, {"clause": "repeat_raises"})
     finally:
         calc.config["output"] = saved
+    # one list of entries (dictionary entries without a file name among them) for BOTH bases - what a YAML anchor shared by
+    # output.pressure_base and output.volume_base gives: each base writes its own files under the documented names
+    out3 = Path(tempfile.mkdtemp(dir=wd.path))
+    shared = ["cij", {"keyword": "bm_VRH"}, {"keyword": "vs", "unit": "km/s"}, "G_V"]
+    ctx.count({"shared_output_list": [str(x) for x in shared]})
+    try:
+        calc.config["output"] = {"pressure_base": shared, "volume_base": shared}
+        with cwd(out3):
+            calc.write_output()
+        files3 = {p.name for p in out3.iterdir()}
+        want3 = {f"{stem}_{b}_{suf}" for b in ("tp", "tv") for stem, suf in (("bm_VRH", "gpa.txt"), ("v_s", "km_s.txt"), ("G_V", "gpa.txt"))}
+        missing = sorted(want3 - files3)
+        if missing:
+            ctx.violation(f"write_output with one list of entries shared by both bases did not write {missing}", {"files": sorted(files3)}, {"clause": "shared_list_files"})
+        else:
+            for stem, attr in (("bm_VRH", "bulk_modulus_voigt_reuss_hill"), ("G_V", "shear_modulus_voigt")):
+                for b, base in (("tp", calc.pressure_base), ("tv", calc.volume_base)):
+                    pr = parse_or_flag(ctx, out3 / f"{stem}_{b}_gpa.txt", "shared_list_content")
+                    if pr is None:
+                        continue
+                    want = numpy.asarray(getattr(base, attr))[:-4] * FACT[("Ry/bohr3", "GPa")]
+                    if pr[2].shape != want.shape or not agrees_to_printed_precision(out3 / f"{stem}_{b}_gpa.txt", pr[2], want):
+                        ctx.violation(f"write_output with one list of entries shared by both bases: {stem}_{b}_gpa.txt does not hold the {b} table of {attr}",
+                                      {}, {"clause": "shared_list_content"})
+    except Exception as ex:
+        ctx.violation(f"write_output with one list of entries shared by both bases raised {ex!r}", {}, {"clause": "repeat_raises"})
+    finally:
+        calc.config["output"] = saved
 
 
 def write_output(ctx, calc, wd, exp_rows):
